@@ -1,3 +1,4 @@
+import LiquidVerif.Gen.C20Unicode
 /-!
 Piece-level model of the template lexer `liquid/lex.py` with the delimiters as a parameter.
 
@@ -137,6 +138,7 @@ structure Tok where
 /-- Python `str.isspace()` for code points below U+0100 (`lstrip()` / `rstrip()` without argument) -/
 def isSpace (c : Char) : Bool :=
   c == ' ' || (0x09 ≤ c.val && c.val ≤ 0x0D) || (0x1C ≤ c.val && c.val ≤ 0x1F) || c.val == 0x85 || c.val == 0xA0
+  || (0x100 ≤ c.val && LiquidVerif.Gen.C20Unicode.spaceRanges.any fun r => r.1 ≤ c.val.toNat && c.val.toNat ≤ r.2)
 
 def lstrip (s : List Char) : List Char := s.dropWhile isSpace
 def rstrip (s : List Char) : List Char := (s.reverse.dropWhile isSpace).reverse
